@@ -9,6 +9,7 @@ import (
 	"os"
 	"sort"
 	"strings"
+	"sync"
 
 	"golang.org/x/tools/go/packages"
 	"golang.org/x/tools/go/ssa"
@@ -77,10 +78,21 @@ func fnInModule(f *ssa.Function) bool {
 }
 
 // fname gives a short stable name: pkg.Func, pkg.(*T).M, pkg.T.M, pkg.F$1.
+var fnameCache sync.Map
+
 func fname(f *ssa.Function) string {
 	if f == nil {
 		return "<nil>"
 	}
+	if s, ok := fnameCache.Load(f); ok {
+		return s.(string)
+	}
+	s := fname1(f)
+	fnameCache.Store(f, s)
+	return s
+}
+
+func fname1(f *ssa.Function) string {
 	if f.Parent() != nil {
 		return fname(f.Parent()) + strings.TrimPrefix(f.Name(), f.Parent().Name())
 	}
